@@ -7,11 +7,12 @@ use std::path::Path;
 pub struct Cases {
     pub module: &'static str, // Coq module under Selene.Corr
     pub items: Vec<(String, Value)>, // (Gallina term, description)
+    pub prelude: String,             // definitions shared by the cases of a shard
 }
 
 impl Cases {
     pub fn new(module: &'static str) -> Self {
-        Cases { module, items: Vec::new() }
+        Cases { module, items: Vec::new(), prelude: String::new() }
     }
     pub fn push(&mut self, term: String, desc: Value) {
         self.items.push((term, desc));
@@ -41,6 +42,9 @@ impl Cases {
             let mut f = fs::File::create(out.join(format!("shard_{k}.v"))).unwrap();
             writeln!(f, "From Selene Require Import Corr.{}.", self.module).unwrap();
             writeln!(f, "Open Scope string_scope. Open Scope list_scope.").unwrap();
+            if !self.prelude.is_empty() {
+                writeln!(f, "{}", self.prelude).unwrap();
+            }
             // one definition per case keeps Coq's parser and type checker fast
             for (j, it) in items.iter().enumerate() {
                 writeln!(f, "Definition c{j} := {it}.").unwrap();
